@@ -267,8 +267,12 @@ def rule_isolate(ctx):
             if isinstance(n, ast.Raise):
                 bad.append("raises")
         paths = run_method(p, f)
-        tasks = [len(pa.calls(method="create_task")) for pa in paths]
-        if any(t != 1 for t in tasks):
+        # one send task per message - or none on a path that tears the connection down instead (close() on itself: a peer
+        # that is known to be gone is not written to any more)
+        def closes_itself(pa):
+            return any(isinstance(e.data["callee"], Fn) and e.data["callee"].fi.name == "close" and show(e.data["callee"].self_val) == "self" for e in pa.calls(method="close"))
+        tasks = [len(pa.calls(method="create_task")) for pa in paths if not (len(pa.calls(method="create_task")) == 0 and closes_itself(pa))]
+        if any(t != 1 for t in tasks) or not tasks:
             bad.append(f"creates {tasks} send tasks per message")
         ctx.check(not bad, "C18.ISOLATE", f.short, "plain function: serialise, create one task, return", f"delivery entry {', '.join(bad)}: one connection can abort or stall delivery to the others", fi=f, text=f"isolate:{bad[:1]}")
     # TCP.start closes every connection when the server stops
